@@ -101,6 +101,8 @@ def _scenarios(quick, seed):
                                 pipes=rnd.randrange(0, 4), sockets=rnd.randrange(0, 3))
         tgt["argv"] = [rnd.choice(["", "plain", "with space", "ünï", "x" * 300, "--flag=1"]) for _ in range(rnd.randrange(0, 5))]
         tgt["env"] = {f"MDW_VAR{j}": rnd.choice(["", "v", "a=b=c", "línea\tx", "y" * 500]) for j in range(rnd.randrange(0, 4))}
+        if k % 5 == 4:
+            tgt["env_clear"], tgt["env"] = True, {}            # an empty /proc/<pid>/environ
         tgt["open_files"] = [f"/tmp/mdw_c18_{os.getpid()}_{k}_{j} näme" for j in range(rnd.randrange(0, 3))]
         w = {"blamed": "main"}
         mode = k % 4
